@@ -13,7 +13,8 @@ SCALAR_CARRIERS = ['pyfloat', 'pyint', 'np.float64', 'np.float32', 'np.float16',
                    'np.int8', 'np.uint64', 'np.uint32', 'np.uint16', 'np.uint8', '0d-f64', '0d-i64', 'decstr', 'pybool']
 ARRAY_CARRIERS = ['ndarray-f64', 'ndarray-f32', 'ndarray-i64', 'ndarray-i32', 'ndarray-u8', 'list', 'tuple', 'nested-list',
                   'nested-tuple', 'list-decstr', 'ndarray-2d', 'list-np.int8', 'list-np.int16', 'tuple-np.int32', 'list-np.uint8', 'list-np.float16',
-                  'tuple-np.float32', 'list-np.uint16', 'list-mixed-np']
+                  'tuple-np.float32', 'list-np.uint16', 'list-mixed-np', 'ndarray-2d-F', 'ndarray-2d-T', 'ndarray-3d', 'ndarray-3d-swap',
+                  'ndarray-i64-2d-F', 'ndarray-strided']
 ROUTES = ['ctor', 'call', 'set_val', 'setitem', 'setitem-slice', 'setitem-2d', 'call-reset', 'recfg', 'setitem-reuse',
           'resize-signed', 'resize-fmt', 'like-signed', 'widen-setitem', 'odd-config', 'config-obj']
 _OTHER = {'trunc': 'around', 'fix': 'ceil', 'floor': 'trunc', 'ceil': 'floor', 'around': 'fix', 'saturate': 'wrap', 'wrap': 'saturate'}
@@ -108,6 +109,26 @@ def make_array(np, carrier, vals):
         return [int(v) if (v.denominator == 1 and i % 2 == 0) else float(v) for i, v in enumerate(vals)]
     if carrier == 'tuple':
         return tuple(float(v) for v in vals)
+    if carrier == 'ndarray-strided':        # every second element of a longer buffer (a non-contiguous 1-D view)
+        buf = np.zeros(2 * n, dtype=np.float64)
+        buf[::2] = fl
+        return buf[::2]
+    if carrier in ('ndarray-2d-F', 'ndarray-2d-T', 'ndarray-3d', 'ndarray-3d-swap', 'ndarray-i64-2d-F'):
+        # the same logical contents (row-major order = vals) in memory layouts other than C order, and with three dimensions
+        if n % 2:
+            return None
+        base = np.array(fl, dtype=np.float64).reshape(2, n // 2)
+        if carrier == 'ndarray-i64-2d-F':
+            if not all(_exact(np, v, np.int64) for v in vals):
+                return None
+            return np.asfortranarray(np.array([int(v) for v in vals], dtype=np.int64).reshape(2, n // 2))
+        if carrier == 'ndarray-2d-F':
+            return np.asfortranarray(base)
+        if carrier == 'ndarray-2d-T':
+            return np.ascontiguousarray(base.T).T                 # a transposed VIEW
+        if carrier == 'ndarray-3d':
+            return base.reshape(2, 1, n // 2)
+        return np.ascontiguousarray(base.reshape(2, 1, n // 2).swapaxes(0, 2)).swapaxes(0, 2)      # non-contiguous 3-D view
     if carrier in ('nested-list', 'nested-tuple', 'ndarray-2d'):
         if n % 2:
             return None
@@ -301,8 +322,13 @@ def observe(fx, np, fmt, modes, vals, carrier, route, props, agg, extra=None, ra
             kind = carrier[len('pyint-'):] if carrier.startswith('pyint-') else carrier
             obj = {'list': lambda: ints, 'tuple': lambda: tuple(ints), 'nested-list': lambda: [ints[:h], ints[h:2 * h]],
                    'nested-tuple': lambda: (tuple(ints[:h]), tuple(ints[h:2 * h])), 'list-1xk': lambda: [ints],
-                   'list-3d': lambda: [[ints[:h]], [ints[h:2 * h]]]}.get(kind, lambda: np.array(ints, dtype=object))()
-            if kind in ('nested-list', 'nested-tuple', 'list-3d') and len(ints) % 2:
+                   'list-3d': lambda: [[ints[:h]], [ints[h:2 * h]]],
+                   # object arrays of Python integers in memory layouts other than C order (row-major contents = ints)
+                   'obj-2d-F': lambda: np.asfortranarray(np.array(ints[:2 * h], dtype=object).reshape(2, h)),
+                   'obj-2d-T': lambda: np.ascontiguousarray(np.array(ints[:2 * h], dtype=object).reshape(2, h).T).T,
+                   'obj-3d-swap': lambda: np.ascontiguousarray(np.array(ints[:2 * h], dtype=object).reshape(2, 1, h).swapaxes(0, 2)).swapaxes(0, 2),
+                   }.get(kind, lambda: np.array(ints, dtype=object))()
+            if kind in ('nested-list', 'nested-tuple', 'list-3d', 'obj-2d-F', 'obj-2d-T', 'obj-3d-swap') and (len(ints) % 2 or h == 0):
                 return None
         else:
             obj = make_array(np, carrier, vals)
